@@ -193,26 +193,9 @@ func (w *webTransport) write(data types.BufferInterface, _ bool) {
 	if _, ok := data.(*types.StringBuffer); ok {
 		mt = webtransport.TextMessage
 	}
-	write, err := w.session.NextWriter(mt)
-	if err != nil {
-		if errors.Is(err, net.ErrClosed) {
-			w.session.Emit("close")
-		} else {
-			w.session.Emit("error", err)
-		}
-		return
-	}
-	defer func() {
-		if err := write.Close(); err != nil {
-			if errors.Is(err, net.ErrClosed) {
-				w.session.Emit("close")
-			} else {
-				w.session.Emit("error", err)
-			}
-			return
-		}
-	}()
-	if _, err := io.Copy(write, data); err != nil {
+	// one message = one frame: the streaming writer starts a new frame whenever its
+	// buffer fills up, which the Engine.IO framing (no continuation frames) cannot express
+	if err := w.session.WriteMessage(mt, data.Bytes()); err != nil {
 		if errors.Is(err, net.ErrClosed) {
 			w.session.Emit("close")
 		} else {
